@@ -248,7 +248,7 @@ def arg_src(a):
 def make_case(d, args, max_steps, tags):
     src = decl_src(d) + "\n\n#%s(%s)" % (d["name"], ", ".join(arg_src(a) for a in args))
     return dict(sx=sx(["case", decl_sx(d), ["args"] + [arg_sx(a) for a in args], max_steps]),
-                impl=dict(src=src, max_steps=max_steps), tags=tags)
+                impl=dict(src=src, max_steps=max_steps), tags=tags, _ast=(d, list(args), max_steps))
 
 
 def A(z): return ("as", "u64", z)
@@ -534,7 +534,7 @@ def rand_machine(rng, with_vec):
                     else:
                         pats.append(("pw",))
                 else:
-                    if last_arm and r < 0.5:
+                    if last_arm and r < 0.75:
                         x = fresh("w"); pats.append(pv(x)); vecs.append(x)
                     else:
                         form = rng.choice(["empty", "one", "cons", "cons", "cons2", "head", "ends", "lit"])
@@ -571,7 +571,7 @@ def rand_machine(rng, with_vec):
                             if t == "n":
                                 es[j] = sub(var(x), lit(1)); break
                         gts.append((g, nxt(s2, *es)))
-                    elif r < 0.42 and gi == ng - 1:
+                    elif gi == ng - 1 and (r < 0.42 or (last_arm and r < 0.8)):
                         gts.append((WILD, rand_target(nums, vecs)))
                     elif r < 0.55 and gts:
                         # duplicate the previous guard (or weaken it): both true at once, different targets
@@ -732,22 +732,22 @@ def generate(tier, rng):
 
     # 1. documented machines x all small inputs x several limits
     for label, d, in_tys in documented:
-        ins = input_domain(in_tys, rng, 30 if quick else 200)
+        ins = input_domain(in_tys, rng, 14 if quick else 200)
         for args in ins:
-            lims = [64] + rng.sample(LIMITS[:-1], 2 if quick else 5)
+            lims = [64] + rng.sample(LIMITS[:-1], 1 if quick else 5)
             if label == "vbubble":
                 lims = [64, rng.choice([5, 12, 30])]
             for m in lims:
                 yield make_case(d, list(args), m, dict(stream="documented", machine=label, limit=m))
 
     # 2. random scalar machines and random vector machines
-    n_rand = (140, 110) if quick else (1500, 1200)
+    n_rand = (110, 90) if quick else (1500, 1200)
     randoms = []
     for with_vec, n in ((False, n_rand[0]), (True, n_rand[1])):
         for k in range(n):
             d, in_tys = rand_machine(rng, with_vec)
             randoms.append((d, in_tys))
-            ins = input_domain(in_tys, rng, 7 if quick else 12)
+            ins = input_domain(in_tys, rng, 6 if quick else 12)
             for args in ins:
                 m = rng.choice([2, 4, 6, 8, 10, 12, 12]) if with_vec else rng.choice([3, 6, 10, 16, 24, 24, 40])
                 yield make_case(d, list(args), m, dict(stream="random-vec" if with_vec else "random-scalar", limit=m,
@@ -762,7 +762,7 @@ def generate(tier, rng):
 
     # 4. ill-formed declarations
     base = [(l, d, t) for (l, d, t) in documented if l in ("counter", "traffic", "turnstile", "fallthrough", "vsum", "vbubble", "literal-arms1", "clamp")]
-    pool = [(l, d, t) for (l, d, t) in base] + [("random", d, t) for d, t in rng.sample(randoms, 40 if quick else 300)]
+    pool = [(l, d, t) for (l, d, t) in base] + [("random", d, t) for d, t in rng.sample(randoms, 24 if quick else 300)]
     for label, d, in_tys in pool:
         good = [A(2) if t == "n" else V(2, 1, 3) for t in in_tys]
         for vl, v in ill_formed_variants(d, rng):
@@ -772,7 +772,7 @@ def generate(tier, rng):
                 yield make_case(v, other, 12, dict(stream="ill-formed", variant=vl, machine=label))
 
     # 5. wrong argument kinds / counts; sized vector kinds; inputs without a kind annotation
-    for label, d, in_tys in base + [("random", d, t) for d, t in rng.sample(randoms, 12 if quick else 100)]:
+    for label, d, in_tys in base + [("random", d, t) for d, t in rng.sample(randoms, 6 if quick else 100)]:
         good = [A(2) if t == "n" else V(2, 1, 3) for t in in_tys]
         for c in wrong_arg_cases(d, in_tys, good, rng, label):
             yield c
@@ -793,4 +793,32 @@ def generate(tier, rng):
 
 
 def shrink(case):
-    return []
+    """smaller variants of a failing case: fewer arms / guards, smaller arguments, lower limit"""
+    ast = case.get("_ast")
+    if not ast:
+        return []
+    d, args, m = ast
+    tags = dict(case.get("tags") or {}, shrunk=1)
+    res = []
+    for i in range(len(d["arms"])):
+        if len(d["arms"]) > 1:
+            v = clone(d); del v["arms"][i]
+            res.append(make_case(v, args, m, tags))
+    for i, (_, s, pats, body) in enumerate(d["arms"]):
+        if body[0] == "g" and len(body[1]) > 1:
+            for j in range(len(body[1])):
+                v = clone(d); gts = list(body[1]); del gts[j]
+                v["arms"][i] = ("arm", s, pats, ("g", gts))
+                res.append(make_case(v, args, m, tags))
+    for i, a in enumerate(args):
+        if a[0] == "as" and a[1] == "u64" and a[2] > 0:
+            for z in {0, a[2] - 1, a[2] // 2}:
+                if z != a[2]:
+                    b = list(args); b[i] = A(z); res.append(make_case(d, b, m, tags))
+        if a[0] == "am" and a[1] == "u64" and len(a) == 5 and a[3] > 1:
+            b = list(args); b[i] = V(*a[4][1:]); res.append(make_case(d, b, m, tags))
+            b = list(args); b[i] = V(*a[4][:-1]); res.append(make_case(d, b, m, tags))
+    for m2 in {m // 2, m - 1}:
+        if 0 <= m2 < m:
+            res.append(make_case(d, args, m2, tags))
+    return res
